@@ -57,6 +57,47 @@ CHECKS["C12"] = dict(
     ref="DESIGN.md section 4 C12",
     technique="TLA+ survey model + TLC-checked spec theorem, spec-behaviour replay into Cube")
 
+CHECKS["C14"] = dict(
+    text="Derived.tla defines scale mean / population variance / median (of the expanded "
+         "multiset) / SE^2 over the respondents of a vector that carry a numeric value; "
+         "numeric-value assignments from {-1,0,1,2,none} x TLC-enumerated bags (zero-count "
+         "categories anywhere in the value order) x subtotal vectors; slices and strands.",
+    ref="DESIGN.md section 4 C14",
+    technique="TLA+ survey model, TLC enumeration, spec-behaviour replay into Cube")
+CHECKS["C15"] = dict(
+    text="Derived.tla defines row/column/total share of sum with totals over base cells "
+         "only; sum responses on categorical, MR and numeric-array rows (0 or NaN for empty "
+         "cells) x insertion configurations on rows and/or columns x TLC-enumerated bags.",
+    ref="DESIGN.md section 4 C15",
+    technique="TLA+ survey model, TLC enumeration, spec-behaviour replay into Cube")
+CHECKS["C16"] = dict(
+    text="Derived.tla defines the unconditional row share with a third indicator mode "
+         "('any': the column answer places no condition); CAT/MR pairings, 2-D and 3-D with "
+         "missing table and column categories in every position x TLC-enumerated bags.",
+    ref="DESIGN.md section 4 C16",
+    technique="TLA+ survey model, TLC enumeration, spec-behaviour replay into Cube")
+CHECKS["C17"] = dict(
+    text="Derived.tla defines population proportion (cat-date aware), the filter-fraction "
+         "decision table and the MoE; every filter-statistics shape x populations "
+         "{1000,0,None,1,7} x cat-date on rows/columns/neither x slices and strands x bags.",
+    ref="DESIGN.md section 4 C17",
+    technique="TLA+ survey model, TLC enumeration, spec-behaviour replay into Cube")
+CHECKS["C07"] = dict(
+    text="Collate.tla / Insertions.tla define the anchored display order, both renderings and "
+         "the numbering of id-less insertions; thousands of seeded configurations (explicit "
+         "lists with repeats / stale / missing ids, hidden subsets, anchors in every "
+         "spelling, ids on all / none / some insertions, view and analysis insertions "
+         "together, non-ascending element ids) are interpreted by TLC and replayed.",
+    ref="DESIGN.md section 4 C07",
+    technique="TLA+ collation model, TLC evaluation of sampled configurations, replay into Cube")
+CHECKS["C09"] = dict(
+    text="View.tla defines visibility: hidden iff flagged, pruned iff the unweighted pruning "
+         "base is zero (MR x MR deviation modelled), subtotals pruned only with an entirely "
+         "empty pruned opposing dimension; hide/prune/order/insertion configurations x "
+         "TLC-enumerated bags with weights {0,1,2}.",
+    ref="DESIGN.md section 4 C09",
+    technique="TLA+ visibility model, TLC enumeration, spec-behaviour replay into Cube")
+
 NOT_YET = {}
 
 
